@@ -163,8 +163,13 @@ Definition check_C03 (pre : State) (o : Op) (c : Z) (post : State) : list Z :=
   ++ clause 2 (forallb (fun kv => val_share_sum post (a_denom (snd kv)) =? a_vshares (snd kv)) (assets post))
   ++ clause 3 (forallb (fun kv => 0 <=? d_shares (snd kv)) (delegations post)
                && forallb (fun kv => forallb (fun da => 0 <=? snd da) (vi_dshares (snd kv))
-                                     && forallb (fun da => 0 <=? snd da) (vi_vshares (snd kv))) (valinfos post)
-               && forallb (fun kv => (0 <=? a_vshares (snd kv)) && (0 <=? a_tokens (snd kv))) (assets post))
+                                     && forallb (fun da => 0 <=? snd da) (vi_vshares (snd kv))) (valinfos post))
+  (* the staked total, kept apart: the reported balance is rounded up (0.01 rounder), so the last
+     holder of an asset can exit with one unit more than the recorded total (F-C03-2) *)
+  ++ clause 32 (forallb (fun kv => 0 <=? a_tokens (snd kv)) (assets post))
+  (* the asset's total of validator shares, kept apart: once the two sides of clause 2 have drifted
+     (F-C03-1) a large exit can drive the recorded total below zero *)
+  ++ clause 33 (forallb (fun kv => 0 <=? a_vshares (snd kv)) (assets post))
   ++ clause 4 (forallb (fun kv => negb (a_tokens (snd kv) =? 0)
                                   || ((a_vshares (snd kv) =? 0) && (val_share_sum post (a_denom (snd kv)) =? 0))) (assets post)).
 
